@@ -1,7 +1,7 @@
 (* C13 — a cut-off or corrupt response is never presented as complete.
    Statements only: for every list of non-empty chunks of any content, every read size, every cut position. *)
 From Coq Require Import List NArith ZArith Arith Bool.
-From V Require Import model.Framing model.ChunkParse proofs.ChunkParse_proofs.
+From V Require Import model.Framing model.ChunkParse proofs.ChunkParse_proofs model.LenRead proofs.LenRead_proofs gen.Gen_Read.
 Import ListNotations.
 
 (* the reader is exact on intact bodies: a chunked body (sizes in hexadecimal as any sender writes them) is read back,
@@ -27,6 +27,41 @@ Theorem rejected_size_line_raises : forall f w amt,
   snd (read_chunked (S f) w amt) = InvalidChunk \/ snd (read_chunked (S f) w amt) = Premature.
 Proof. exact ChunkParse_proofs.rejected_size_line_raises. Qed.
 Print Assumptions rejected_size_line_raises.
+
+(* ---- Content-Length framing (model LenRead.v) ---- *)
+
+(* enforce_content_length is on by default from urlopen down to the response, and _raw_read still raises IncompleteRead on
+   an empty read while length_remaining is not zero *)
+Theorem source_facts :
+  Gen_Read.enforce_content_length_default = Some true /\ Gen_Read.raw_read_enforces_length = Some true.
+Proof. split; reflexivity. Qed.
+Print Assumptions source_facts.
+
+(* a body that stops short of its Content-Length never ends normally: read() / preload, a loop of read(n), stream(n),
+   decoding requested or not - every one ends in IncompleteRead (or ProtocolError around http.client's), having
+   delivered only a prefix of the bytes that arrived *)
+Theorem cut_never_complete_len : forall dc body content_length ap,
+  length body < content_length -> amt_ok ap ->
+  exists ps e, run_api true dc body content_length ap = (ps, e) /\ (e = EIncomplete \/ e = EProtocol) /\
+               exists rest, body = concat ps ++ rest.
+Proof. exact LenRead_proofs.cut_never_complete_len. Qed.
+Print Assumptions cut_never_complete_len.
+
+(* and a body that is all there is read back exactly (whatever follows it on the connection is left alone) and ends normally *)
+Theorem complete_body_reads_back_len : forall dc body content_length ap,
+  content_length <= length body -> amt_ok ap ->
+  exists ps, run_api true dc body content_length ap = (ps, Normal) /\ concat ps = firstn content_length body.
+Proof. exact LenRead_proofs.complete_body_reads_back_len. Qed.
+Print Assumptions complete_body_reads_back_len.
+
+(* non-vacuity *)
+Example len_whole : run_api true true [104; 105; 33; 33; 33] 5 (AReadN 2) = ([[104; 105]; [33; 33]; [33]], Normal).
+Proof. vm_compute. reflexivity. Qed.
+Example len_cut : run_api true true [104; 105; 33] 5 (AStream 2) = ([[104; 105]], EIncomplete).
+Proof. vm_compute. reflexivity. Qed.
+(* without enforce_content_length the cut body would end normally: the theorem is about the default *)
+Example len_cut_not_enforced : run_api false true [104; 105; 33] 5 (AReadN 2) = ([[104; 105]; [33]], Normal).
+Proof. vm_compute. reflexivity. Qed.
 
 (* what int(.., 16) accepts and rejects, on the inputs that matter *)
 Example size_lines :
